@@ -185,3 +185,70 @@ Example c04_nonvacuous_delete :
   tget key_cmp bt15 (KU64 21) = None /\ tget key_cmp bt15 (KU64 ((16 * 7) mod 23)) = Some [16; 16]%N /\
   bt_root (fold_left ex_del [16;17;18;19;20]%N bt15) = None.
 Proof. vm_compute. repeat split; reflexivity. Qed.
+
+(* ------------------------------------------------------------------------------------------------
+   Tie to the code (Gen/Fns.v is regenerated from btree_base.rs / btree_mutator.rs on every run by
+   tools/gen_fns.py): the size and threshold functions the mutator model above is built from are equal to
+   the functions translated from the Rust sources.  A change of one of them in redb breaks the proof below. *)
+From RV Require Import Gen.FnsLib Gen.Fns Gen.FnsBtreeP.
+
+Theorem c04_code_leaf_required_bytes_is_model : forall n bytes (fk fv : option N),
+  RawLeafBuilder_required_bytes n bytes fk fv = Mutator.leaf_required (isSome fk) (isSome fv) n bytes.
+Proof. exact leaf_required_is_model. Qed.
+
+Theorem c04_code_leafbuilder_required_bytes_is_model : forall (fk fv : option N) n bytes,
+  LeafBuilder_required_bytes fk fv n bytes = Mutator.leaf_required (isSome fk) (isSome fv) n bytes.
+Proof. exact LeafBuilder_required_is_model. Qed.
+
+Theorem c04_code_leaf_fits_one_page_is_model : forall n bytes (fk fv : option N) ps,
+  Fns.leaf_fits_one_page n bytes fk fv ps = Mutator.leaf_fits (isSome fk) (isSome fv) ps n bytes.
+Proof. exact leaf_fits_is_model. Qed.
+
+Theorem c04_code_leaf_split_required_is_model : forall n bytes (fk fv : option N) ps,
+  Fns.leaf_split_required n bytes fk fv ps = Mutator.leaf_split_required (isSome fk) (isSome fv) ps n bytes.
+Proof. exact leaf_split_required_is_model. Qed.
+
+Theorem c04_code_leaf_below_merge_threshold_is_model : forall n bytes (fk fv : option N) ps,
+  Fns.leaf_below_merge_threshold n bytes fk fv ps = Mutator.leaf_below_merge (isSome fk) (isSome fv) ps n bytes.
+Proof. exact leaf_below_merge_is_model. Qed.
+
+Theorem c04_code_leafbuilder_should_split_is_model : forall kb vb (fk fv : option N) n ps,
+  LeafBuilder_should_split kb vb fk fv n ps = Mutator.leaf_split_required (isSome fk) (isSome fv) ps n (kb + vb)%N.
+Proof. exact LeafBuilder_should_split_is_model. Qed.
+
+Theorem c04_code_is_single_large_value_is_model :
+  forall {K V} (ksize : K -> N) (vsize : V -> N) (fk fv : option N) ps (es : list (K * V)),
+  Mutator.single_large ksize vsize (isSome fk) (isSome fv) ps es =
+  Fns.is_single_large_value ps (Mutator.nlen es)
+    (RawLeafBuilder_required_bytes (Mutator.nlen es) (Mutator.leaf_bytes ksize vsize es) fk fv).
+Proof. exact @single_large_is_model. Qed.
+
+Theorem c04_code_leaf_split_division_is_model :
+  forall {K V} (ksize : K -> N) (vsize : V -> N) (es : list (K * V)),
+  Mutator.division ksize vsize es =
+  N.to_nat (LeafBuilder_build_split_clamp
+              (N.of_nat (Mutator.split_point ksize vsize es 0 (Mutator.leaf_bytes ksize vsize es / 2)%N))
+              (Mutator.nlen es) 65535%N).
+Proof. exact @division_is_model. Qed.
+
+Theorem c04_code_leaf_split_half_reached_is_model : forall kb vb total,
+  LeafBuilder_build_split_half_reached kb vb total = (total / 2 <=? kb + vb)%N.
+Proof. exact split_half_reached_is_model. Qed.
+
+Theorem c04_code_branch_required_bytes_is_model : forall nkeys keybytes (fk : option N),
+  RawBranchBuilder_required_bytes nkeys keybytes fk = Mutator.branch_required (isSome fk) nkeys keybytes.
+Proof. exact branch_required_is_model. Qed.
+
+Theorem c04_code_branchbuilder_required_bytes_is_model : forall keybytes (fk : option N) nkeys,
+  BranchBuilder_required_bytes keybytes fk nkeys = Mutator.branch_required (isSome fk) nkeys keybytes.
+Proof. exact BranchBuilder_required_is_model. Qed.
+
+Theorem c04_code_branch_should_split_is_model :
+  forall {K V} (ksize : K -> N) (fk : option N) ps (rest : list (K * @node K V)),
+  Mutator.branch_should_split ksize (isSome fk) ps rest =
+  BranchBuilder_should_split (Mutator.sep_bytes ksize rest) fk (Mutator.nlen rest) ps.
+Proof. exact @branch_should_split_is_model. Qed.
+
+Theorem c04_code_branch_below_merge_is_model : forall required ps,
+  finalize_branch_builder_below_merge required ps = (required <? ps / 3)%N.
+Proof. exact branch_below_merge_is_model. Qed.
